@@ -106,22 +106,22 @@ def run(ctx):
         recs = [{"type": "Rotate"} if o["op"] == "Rotate" else {"type": o["type"], "size": o["size"]} for o in ops]
         bits = 8 * sum(r.get("size", 0) + 9 for r in recs if r["type"] != "Rotate")
         stride = (max(1, bits // 45) | 1) if quick else 1
-        add({"kind": "wal", "recs": recs, "verify": i % 2 == 0, "stride": stride, "offset": ctx.seed + i}, bits // stride * 12)
+        add({"kind": "wal", "recs": recs, "verify": i % 2 == 0, "stride": stride, "offset": ctx.seed + i}, bits // stride * 100)
     for i in range(2 if quick else 6):
         recs = vals(4 if quick else 6)
         bits = 8 * (20 + sum(r["size"] + 30 for r in recs))
         stride = (max(1, bits // 700) | 1) if quick else 1
-        add({"kind": "vlog", "recs": recs, "verify": i % 2 == 1, "stride": stride, "offset": ctx.seed + i}, bits // stride)
+        add({"kind": "vlog", "recs": recs, "verify": i % 2 == 1, "stride": stride, "offset": ctx.seed + i}, bits // stride * 5)
     for i in range(2 if quick else 4):
         recs = vals(7 if quick else (6 if i < 2 else 10))
         bits = 8 * (200 + sum(r["size"] + 40 for r in recs))
         stride = (max(1, bits // 1500) | 1) if quick else (1 if i < 2 else 5)   # thorough: every bit of two tables
-        add({"kind": "sst", "recs": recs, "stride": stride, "offset": ctx.seed + i}, bits // stride * 2)
+        add({"kind": "sst", "recs": recs, "stride": stride, "offset": ctx.seed + i}, bits // stride * 10)
     for f in ("sst", "vlog"):
         for i in range(1 if quick else 2):
             recs = [{"size": ctx.rng.choice([33, 40, 64, 70, 100])} for _ in range(6)]
             mx = 10 if quick else 40
-            add({"kind": "db", "file": f, "recs": recs, "stride": 211 if f == "sst" else 97, "max": mx, "offset": ctx.seed * 7 + i}, mx * 150)
+            add({"kind": "db", "file": f, "recs": recs, "stride": 211 if f == "sst" else 97, "max": mx, "offset": ctx.seed * 7 + i}, mx * 1000)
     ctx.log("M2: %d WAL shapes from TLC, %d jobs" % (len(shapes), len(jobs)))
     traces = run_driver(ctx, jobs)
     order = sorted(traces)
